@@ -317,7 +317,7 @@ pub fn run(ctx: &Ctx) {
     // each case builds its own pools: limit harness-level threads so that 16-thread pools are not starved
     ctx.run_cases("pools-and-schedules", t.pick(500, 2500), t.pick(20.0, 400.0), |r, c, o| if c % 3 == 0 { par_case::<f32>(r, c, o, &pools, ds) } else { par_case::<f64>(r, c, o, &pools, ds) });
     let fit_pools = vec![1usize, 3, 8];
-    ctx.run_cases("fits", t.pick(400, 3000), t.pick(15.0, 200.0), |r, c, o| if c % 4 == 0 { fit_case::<f32>(r, c, o, &fit_pools) } else { fit_case::<f64>(r, c, o, &fit_pools) });
+    ctx.run_cases("fits", t.pick(400, 3000), t.pick(15.0, 900.0), |r, c, o| if c % 4 == 0 { fit_case::<f32>(r, c, o, &fit_pools) } else { fit_case::<f64>(r, c, o, &fit_pools) });
     {
         let tot = ctx.total.lock().unwrap();
         let multi = tot.counters.get("parallel_jacobians_on_two_or_more_workers").cloned().unwrap_or(0);
@@ -356,7 +356,7 @@ fn sanitizers(ctx: &Ctx) {
             let exe = format!("{dir}/target-tsan/x86_64-unknown-linux-gnu/release/vpmini");
             let run = Command::new(&exe)
                 .env("TSAN_OPTIONS", "halt_on_error=0 exitcode=66 report_signal_unsafe=0")
-                .args(["C11", &ctx.seed.to_string(), "120", "16", "12"])
+                .args(["C11", &ctx.seed.to_string(), "1500", "16", "12"])
                 .output();
             match run {
                 Ok(o) => {
